@@ -303,7 +303,7 @@ Outcome runRing(const Plan & p, Ctx & c)
     int count = op.kind == 2 ? op.count : 1;
     for (int k = 0; k < count; ++k) {
       double v = op.kind == 2 ? op.v + op.step * (double)k : op.v;
-      ring.append(make(v));
+      if ((opNo + (uint64_t)k) & 1) {Vec named = make(v); ring.append(named);} else {ring.append(make(v));}   // lvalue and rvalue arguments
       model.push_front(v); if (model.size() > cap) {model.pop_back();}
       ++sinceClear; ++c.steps;
       SIM_COUNT("op.append");
